@@ -159,6 +159,17 @@ func run(c Case, rec *h.Rec) {
 			rec.Failf("record %d after UnmarshalSAM: %s\n  %q", i, msg, line)
 			return
 		}
+		// the same line parsed without a header (UnmarshalSAM documents this
+		// mode: references become placeholders that carry only the name)
+		var free sam.Record
+		if err := free.UnmarshalSAM(nil, b); err != nil {
+			rec.Failf("UnmarshalSAM(nil header) rejects the line MarshalSAM produced: %v\n  %q", err, line)
+			return
+		}
+		if b3, err := free.MarshalSAM(flagFmt); err != nil || string(b3) != line {
+			rec.Failf("line changes after a parse/format cycle without a header (err %v):\n  %q\n  %q", err, line, b3)
+			return
+		}
 		lines = append(lines, line)
 		kinds := map[byte]bool{}
 		for _, x := range a.Aux {
